@@ -248,6 +248,8 @@ def run(env) -> Result:
                 except Exception as ex:  # noqa: BLE001
                     viol(f"dumpstruct raised {type(ex).__name__}: {ex}", case)
                     continue
+                lines.append(t6_c19.dumpstruct_model_line(obj, raw, 0, color))
+                metas.append(("dumpstruct", case, (out,)))
                 txt = re.sub(r"\033\[[0-9;]*m", "", out)
                 hexpart, _, listing = txt.strip("\n").partition("\n\n")
                 got = bytearray()
@@ -265,7 +267,7 @@ def run(env) -> Result:
 
     # ---- round 2 (t6): parameter sweeps of hexdump / dumpstruct, pack / unpack / swap over widths 1..130
     t6_c19.hexdump_params(env, res, U, viol, lines, metas)
-    t6_c19.dumpstruct_params(env, res, U, dc, viol)
+    t6_c19.dumpstruct_params(env, res, U, dc, viol, lines, metas)
     t6_c19.pack_widths(env, res, U, viol, lines, metas)
 
     # ---- model correspondence
@@ -282,6 +284,9 @@ def run(env) -> Result:
             else:
                 model = "\n".join(f"{prefix}{int(l[0]):08x}  {str(l[1]):48s}  {str(l[2])}" for l in s[1:])
                 ok = model == out
+        elif kind == "dumpstruct":
+            addr = lambda t: re.sub(r" object at 0x[0-9a-f]+>", " object>", t or "")  # noqa: E731   default reprs (void) name an address
+            ok = addr(t6_c19.dumpstruct_model_text(s)) == addr(want[0])
         elif kind in ("pack",):
             ok = (s[0] == "ok" and str(s[1]) == common.hx(want[1])) if want[0] == "ok" else s[0] == "err"
         elif kind in ("unpack", "swap"):
